@@ -116,7 +116,10 @@ Proof. unfold deps_of, write_field. cbn [deps]. apply deps_fold_new. Qed.
 
 (* ---------- the invariant --------------------------------------------------------------------------- *)
 
-Record Inv (st : fstate) : Prop := mkInv {
+(* The clauses about fields are guarded by a predicate P on the point index: P = "any index" for the plain
+   model; the extended model (Model/FactoryX.v) keeps what Init-time lookups return in pseudo-fields 100, 101, ...
+   which are NOT injection points (no dependent is recorded for them), and takes P k := k < 100. *)
+Record InvG (P : nat -> Prop) (st : fstate) : Prop := mkInv {
   (* early entries belong to names in creation, names in creation have a cache entry and are unpublished *)
   i_early_creating : forall m, isSome (alookup m (L2 (reg st))) || isSome (alookup m (L3 (reg st))) = true ->
                                In m (creating (reg st));
@@ -126,15 +129,25 @@ Record Inv (st : fstate) : Prop := mkInv {
   i_owner1 : forall m v, alookup m (L1 (reg st)) = Some v -> owner v = m;
   i_owner2 : forall m v, alookup m (L2 (reg st)) = Some v -> owner v = m;
   (* every handed-out version is current *)
-  i_current : forall h k v, In v (field_of st h k) -> cur (reg st) (owner v) = Some v;
+  i_current : forall h k v, P k -> In v (field_of st h k) -> cur (reg st) (owner v) = Some v;
   (* holders are recorded as dependents *)
-  i_deps : forall h k v, In v (field_of st h k) -> In h (deps_of st v);
+  i_deps : forall h k v, P k -> In v (field_of st h k) -> In h (deps_of st v);
   (* a holder still in creation holds unpublished versions only of components at or below itself *)
-  i_stack : forall h k v, In v (field_of st h k) -> alookup (owner v) (L1 (reg st)) = None ->
+  i_stack : forall h k v, P k -> In v (field_of st h k) -> alookup (owner v) (L1 (reg st)) = None ->
                           In h (creating (reg st)) -> at_or_above h (owner v) (creating (reg st));
   (* no holder is ever handed its own instance *)
-  i_noself : forall h k v, In v (field_of st h k) -> is_self h v = false
+  i_noself : forall h k v, P k -> In v (field_of st h k) -> is_self h v = false
 }.
+
+Definition anyk : nat -> Prop := fun _ => True.
+Arguments i_early_creating {P}. Arguments i_creating_cached {P}. Arguments i_creating_unpub {P}.
+Arguments i_owner1 {P}. Arguments i_owner2 {P}. Arguments i_current {P}. Arguments i_deps {P}.
+Arguments i_stack {P}. Arguments i_noself {P}.
+
+Section Guarded.
+Context {P : nat -> Prop}.
+Local Notation Inv := (InvG P).
+
 
 Definition same_core (st st' : fstate) : Prop :=
   reg st' = reg st /\ flds st' = flds st /\ deps st' = deps st.
@@ -263,15 +276,15 @@ Proof.
   - intros m w Hw. destruct (Nat.eq_dec m n) as [->|Hne].
     + rewrite alookup_aset_eq in Hw. injection Hw as <-. exact Ho.
     + rewrite (alookup_aset_neq n m v _ Hne) in Hw. apply I5. exact Hw.
-  - intros h k w Hw. change (field_of (set_reg st (get_promote (reg st) n v)) h k) with (field_of st h k) in Hw.
-    pose proof (I6 h k w Hw) as Hc. destruct (Nat.eq_dec (owner w) n) as [He|Hne].
+  - intros h k w Hp Hw. change (field_of (set_reg st (get_promote (reg st) n v)) h k) with (field_of st h k) in Hw.
+    pose proof (I6 h k w Hp Hw) as Hc. destruct (Nat.eq_dec (owner w) n) as [He|Hne].
     + rewrite He in Hc. unfold cur in Hc. rewrite H1, H2 in Hc. discriminate.
     + rewrite (cur_promote_neq (reg st) n v _ Hne). exact Hc.
-  - intros h k w Hw. change (field_of (set_reg st (get_promote (reg st) n v)) h k) with (field_of st h k) in Hw.
-    change (deps_of (set_reg st (get_promote (reg st) n v)) w) with (deps_of st w). eapply I7; exact Hw.
-  - intros h k w Hw. change (field_of (set_reg st (get_promote (reg st) n v)) h k) with (field_of st h k) in Hw.
-    apply (I8 h k w Hw).
-  - intros h k w Hw. apply (I9 h k w Hw).
+  - intros h k w Hp Hw. change (field_of (set_reg st (get_promote (reg st) n v)) h k) with (field_of st h k) in Hw.
+    change (deps_of (set_reg st (get_promote (reg st) n v)) w) with (deps_of st w). eapply I7; [exact Hp|exact Hw].
+  - intros h k w Hp Hw. change (field_of (set_reg st (get_promote (reg st) n v)) h k) with (field_of st h k) in Hw.
+    apply (I8 h k w Hp Hw).
+  - intros h k w Hp Hw. apply (I9 h k w Hp Hw).
 Qed.
 
 Lemma Inv_push st n :
@@ -295,20 +308,20 @@ Proof.
   - intros m [<-|Hm]; [exact Hl1|apply I3; exact Hm].
   - exact I4.
   - exact I5.
-  - intros h k w Hw. apply (I6 h k w Hw).
-  - intros h k w Hw. apply (I7 h k w Hw).
-  - intros h k w Hw HL1 Hin. pose proof (I6 h k w Hw) as Hc.
+  - intros h k w Hp Hw. apply (I6 h k w Hp Hw).
+  - intros h k w Hp Hw. apply (I7 h k w Hp Hw).
+  - intros h k w Hp Hw HL1 Hin. pose proof (I6 h k w Hp Hw) as Hc.
     destruct Hin as [<-|Hin]; [left; reflexivity|]. right. split.
     + intros Heq. unfold cur in Hc. rewrite HL1 in Hc.
       assert (Hm : In (owner w) (creating (reg st))) by (apply I1; rewrite Hc; reflexivity).
       rewrite <- Heq in Hm. contradiction.
-    + apply (I8 h k w Hw HL1 Hin).
-  - intros h k w Hw. apply (I9 h k w Hw).
+    + apply (I8 h k w Hp Hw HL1 Hin).
+  - intros h k w Hp Hw. apply (I9 h k w Hp Hw).
 Qed.
 
 Lemma Inv_publish st n cr v :
   Inv st -> creating (reg st) = n :: cr -> ~ In n cr -> owner v = n ->
-  (forall h k w, In w (field_of st h k) -> owner w = n -> w = v) ->
+  (forall h k w, P k -> In w (field_of st h k) -> owner w = n -> w = v) ->
   Inv (set_reg st (end_create_ok (reg st) n v)) /\
   creating (end_create_ok (reg st) n v) = cr.
 Proof.
@@ -334,22 +347,74 @@ Proof.
     destruct (Nat.eq_dec m n) as [->|Hne].
     + rewrite alookup_aremove_eq in Hw. discriminate.
     + rewrite (alookup_aremove_neq n m _ Hne) in Hw. apply I5. exact Hw.
-  - intros h k w Hw. change (field_of (set_reg st (end_create_ok (reg st) n v)) h k) with (field_of st h k) in Hw.
+  - intros h k w Hp Hw. change (field_of (set_reg st (end_create_ok (reg st) n v)) h k) with (field_of st h k) in Hw.
     destruct (Nat.eq_dec (owner w) n) as [He|Hne].
-    + rewrite (Hall h k w Hw He), Ho. apply cur_publish_eq.
-    + rewrite (cur_publish_neq (reg st) n v _ Hne). apply (I6 h k w Hw).
-  - intros h k w Hw. change (field_of (set_reg st (end_create_ok (reg st) n v)) h k) with (field_of st h k) in Hw.
-    change (deps_of (set_reg st (end_create_ok (reg st) n v)) w) with (deps_of st w). eapply I7; exact Hw.
-  - intros h k w Hw HL1 Hin.
+    + rewrite (Hall h k w Hp Hw He), Ho. apply cur_publish_eq.
+    + rewrite (cur_publish_neq (reg st) n v _ Hne). apply (I6 h k w Hp Hw).
+  - intros h k w Hp Hw. change (field_of (set_reg st (end_create_ok (reg st) n v)) h k) with (field_of st h k) in Hw.
+    change (deps_of (set_reg st (end_create_ok (reg st) n v)) w) with (deps_of st w). eapply I7; [exact Hp|exact Hw].
+  - intros h k w Hp Hw HL1 Hin.
     change (field_of (set_reg st (end_create_ok (reg st) n v)) h k) with (field_of st h k) in Hw.
     assert (Hon : owner w <> n).
     { intros He. unfold end_create_ok, add_singleton in HL1. cbn [L1] in HL1. rewrite He, alookup_aset_eq in HL1. discriminate. }
     assert (Hhn : h <> n) by (intros ->; contradiction).
     unfold end_create_ok, add_singleton in HL1. cbn [L1] in HL1. rewrite (alookup_aset_neq n _ v _ Hon) in HL1.
     assert (Hin' : In h (creating (reg st))) by (rewrite Hcr; right; exact Hin).
-    pose proof (I8 h k w Hw HL1 Hin') as Ha. rewrite Hcr in Ha.
+    pose proof (I8 h k w Hp Hw HL1 Hin') as Ha. rewrite Hcr in Ha.
     rewrite <- (set_remove_head n cr Hnin). apply at_or_above_remove; [exact Hhn|exact Ha].
-  - intros h k w Hw. apply (I9 h k w Hw).
+  - intros h k w Hp Hw. apply (I9 h k w Hp Hw).
+Qed.
+
+(* a creation that neither registers an early factory nor calls back into the factory (a post-processor
+   short-circuits instantiation, Model/FactoryX.v): push, callbacks, publish — seen as one step *)
+Lemma Inv_publish_fresh st st2 n v :
+  Inv st -> cached (reg st) n = false ->
+  reg st2 = mkR (L1 (reg st)) (L2 (reg st)) (L3 (reg st)) (n :: creating (reg st)) ->
+  flds st2 = flds st -> deps st2 = deps st -> owner v = n ->
+  Inv (set_reg st2 (end_create_ok (reg st2) n v)) /\
+  creating (end_create_ok (reg st2) n v) = creating (reg st).
+Proof.
+  intros [I1 I2 I3 I4 I5 I6 I7 I8 I9] Hunc Hr2 Hf Hd Ho.
+  assert (Hnin : ~ In n (creating (reg st))) by (intros H; rewrite (I2 n H) in Hunc; discriminate).
+  assert (Hl : alookup n (L1 (reg st)) = None /\ alookup n (L2 (reg st)) = None).
+  { unfold cached in Hunc. destruct (alookup n (L1 (reg st))); [discriminate|].
+    destruct (alookup n (L2 (reg st))); [cbn in Hunc; discriminate|]. split; reflexivity. }
+  destruct Hl as [Hl1 Hl2].
+  assert (Hcr' : creating (end_create_ok (reg st2) n v) = creating (reg st)).
+  { unfold end_create_ok, add_singleton. cbn [creating]. rewrite Hr2. cbn [creating]. apply set_remove_head. exact Hnin. }
+  assert (Hfo : forall h k, field_of (set_reg st2 (end_create_ok (reg st2) n v)) h k = field_of st h k).
+  { intros h k. unfold field_of. cbn [flds set_reg]. rewrite Hf. reflexivity. }
+  assert (Hdo : forall w, deps_of (set_reg st2 (end_create_ok (reg st2) n v)) w = deps_of st w).
+  { intros w. unfold deps_of. cbn [deps set_reg]. rewrite Hd. reflexivity. }
+  assert (Hcur : forall m, m <> n -> cur (end_create_ok (reg st2) n v) m = cur (reg st) m).
+  { intros m Hne. rewrite (cur_publish_neq (reg st2) n v m Hne). unfold cur. rewrite Hr2. reflexivity. }
+  assert (Hfn : forall h k w, P k -> In w (field_of st h k) -> owner w <> n).
+  { intros h k w Hp Hw He. pose proof (I6 h k w Hp Hw) as Hc. rewrite He in Hc. unfold cur in Hc.
+    rewrite Hl1, Hl2 in Hc. discriminate. }
+  split; [|exact Hcr'].
+  constructor; rewrite ?reg_set_reg; rewrite ?Hcr'.
+  - intros m Hm. unfold end_create_ok, add_singleton in Hm. cbn [L2 L3] in Hm. rewrite Hr2 in Hm. cbn [L2 L3] in Hm.
+    destruct (Nat.eq_dec m n) as [->|Hne].
+    + rewrite !alookup_aremove_eq in Hm. discriminate.
+    + rewrite !(alookup_aremove_neq n m _ Hne) in Hm. apply I1. exact Hm.
+  - intros m Hm. apply mono_end_create_ok. pose proof (I2 m Hm) as Hc. unfold cached in *. rewrite Hr2. exact Hc.
+  - intros m Hm. assert (Hne : m <> n) by (intros ->; contradiction).
+    unfold end_create_ok, add_singleton. cbn [L1]. rewrite (alookup_aset_neq n m v _ Hne). rewrite Hr2. cbn [L1].
+    apply I3. exact Hm.
+  - intros m w Hw. unfold end_create_ok, add_singleton in Hw. cbn [L1] in Hw.
+    destruct (Nat.eq_dec m n) as [->|Hne].
+    + rewrite alookup_aset_eq in Hw. injection Hw as <-. exact Ho.
+    + rewrite (alookup_aset_neq n m v _ Hne) in Hw. rewrite Hr2 in Hw. apply I4. exact Hw.
+  - intros m w Hw. unfold end_create_ok, add_singleton in Hw. cbn [L2] in Hw.
+    destruct (Nat.eq_dec m n) as [->|Hne].
+    + rewrite alookup_aremove_eq in Hw. discriminate.
+    + rewrite (alookup_aremove_neq n m _ Hne) in Hw. rewrite Hr2 in Hw. apply I5. exact Hw.
+  - intros h k w Hp Hw. rewrite Hfo in Hw. rewrite (Hcur _ (Hfn h k w Hp Hw)). apply (I6 h k w Hp Hw).
+  - intros h k w Hp Hw. rewrite Hfo in Hw. rewrite Hdo. apply (I7 h k w Hp Hw).
+  - intros h k w Hp Hw HL1 Hin. rewrite Hfo in Hw. pose proof (Hfn h k w Hp Hw) as Hon.
+    unfold end_create_ok, add_singleton in HL1. cbn [L1] in HL1. rewrite (alookup_aset_neq n _ v _ Hon) in HL1.
+    rewrite Hr2 in HL1. cbn [L1] in HL1. apply (I8 h k w Hp Hw HL1 Hin).
+  - intros h k w Hp Hw. rewrite Hfo in Hw. apply (I9 h k w Hp Hw).
 Qed.
 
 (* ---------- the specification of doGetComponent, by induction on fuel -------------------------------- *)
@@ -376,18 +441,18 @@ Proof.
   intros HI Hcr Hall Hns. destruct HI as [I1 I2 I3 I4 I5 I6 I7 I8 I9].
   rewrite Forall_forall in Hall.
   constructor; rewrite ?reg_write_field; try assumption.
-  - intros h' k' v Hv. rewrite field_of_write in Hv. destruct (key_eqb (h, k) (h', k')) eqn:E.
+  - intros h' k' v Hp Hv. rewrite field_of_write in Hv. destruct (key_eqb (h, k) (h', k')) eqn:E.
     + apply Hall. exact Hv.
-    + apply (I6 h' k' v Hv).
-  - intros h' k' v Hv. rewrite field_of_write in Hv. destruct (key_eqb (h, k) (h', k')) eqn:E.
+    + apply (I6 h' k' v Hp Hv).
+  - intros h' k' v Hp Hv. rewrite field_of_write in Hv. destruct (key_eqb (h, k) (h', k')) eqn:E.
     + apply key_eqb_true in E. inversion E; subst. apply deps_of_write_new. exact Hv.
-    + apply deps_of_write_keep. apply (I7 h' k' v Hv).
-  - intros h' k' v Hv HL Hin. rewrite field_of_write in Hv. destruct (key_eqb (h, k) (h', k')) eqn:E.
+    + apply deps_of_write_keep. apply (I7 h' k' v Hp Hv).
+  - intros h' k' v Hp Hv HL Hin. rewrite field_of_write in Hv. destruct (key_eqb (h, k) (h', k')) eqn:E.
     + apply key_eqb_true in E. inversion E; subst. rewrite Hcr. left; reflexivity.
-    + apply (I8 h' k' v Hv HL Hin).
-  - intros h' k' v Hv. rewrite field_of_write in Hv. destruct (key_eqb (h, k) (h', k')) eqn:E.
+    + apply (I8 h' k' v Hp Hv HL Hin).
+  - intros h' k' v Hp Hv. rewrite field_of_write in Hv. destruct (key_eqb (h, k) (h', k')) eqn:E.
     + apply key_eqb_true in E. inversion E; subst. apply Hns. exact Hv.
-    + apply (I9 h' k' v Hv).
+    + apply (I9 h' k' v Hp Hv).
 Qed.
 
 Lemma get_lookup_hit_cur r n early v : get_lookup r n early = Hit v -> cur r n = Some v.
@@ -422,10 +487,11 @@ Section Spec.
   Hypothesis Hfix : fix_c03 vt = true.
   Variable s : scenario.
 
-  Definition rec_spec (rec : fstate -> name -> res (fstate * ver)) : Prop :=
+  Definition rec_specG (rec : fstate -> name -> res (fstate * ver)) : Prop :=
     forall st d st' v, Inv st -> rec st d = Ok (st', v) ->
       Inv st' /\ creating (reg st') = creating (reg st) /\ keeps (reg st) (reg st') /\ cur (reg st') d = Some v.
 
+  Local Notation rec_spec := rec_specG.
   Variable rec : fstate -> name -> res (fstate * ver).
   Hypothesis Hrec : rec_spec rec.
 
@@ -551,7 +617,7 @@ Section Spec.
       unfold get_singleton in H. rewrite get_lookup_false in H.
       (* the version that gets published and the reason why every holder already has it *)
       assert (Hpub : forall pv, owner pv = n ->
-                (forall h k x, In x (field_of st2 h k) -> owner x = n -> x = pv) ->
+                (forall h k x, P k -> In x (field_of st2 h k) -> owner x = n -> x = pv) ->
                 Inv (set_reg st2 (end_create_ok (reg st2) n pv)) /\
                 creating (reg (set_reg st2 (end_create_ok (reg st2) n pv))) = creating (reg st) /\
                 keeps (reg st) (reg (set_reg st2 (end_create_ok (reg st2) n pv))) /\
@@ -568,11 +634,11 @@ Section Spec.
         destruct w as [wv|].
         * destruct (stale_dependents vt st2 n e) as [|d0 dr] eqn:Est; [|discriminate].
           inversion H; subst st' v. apply Hpub; [exact Hown|].
-          intros h k x Hx Hox. exfalso.
-          pose proof (i_deps st2 HI2 h k x Hx) as Hdep.
+          intros h k x Hp Hx Hox. exfalso.
+          pose proof (i_deps st2 HI2 h k x Hp Hx) as Hdep.
           (* every handed-out version of n is the early reference e *)
           assert (Hxe : x = e).
-          { pose proof (i_current st2 HI2 h k x Hx) as Hc. rewrite Hox, Ecur in Hc. inversion Hc; reflexivity. }
+          { pose proof (i_current st2 HI2 h k x Hp Hx) as Hc. rewrite Hox, Ecur in Hc. inversion Hc; reflexivity. }
           rewrite Hxe in Hdep.
           assert (Hnot : (if fix_c03 vt then Nat.eqb h n || negb (is_creating (reg st2) h)
                           else negb (is_creating (reg st2) h)) = false).
@@ -584,21 +650,21 @@ Section Spec.
           rewrite Hfix in Hnot. apply orb_false_iff in Hnot. destruct Hnot as [Hhn Hcre].
           apply Nat.eqb_neq in Hhn. apply negb_false_iff in Hcre. unfold is_creating in Hcre. apply mem_In in Hcre.
           assert (HLo : alookup (owner x) (L1 (reg st2)) = None) by (rewrite Hox; exact HL1).
-          pose proof (i_stack st2 HI2 h k x Hx HLo Hcre) as Ha. rewrite Hcr2, Hox in Ha.
+          pose proof (i_stack st2 HI2 h k x Hp Hx HLo Hcre) as Ha. rewrite Hcr2, Hox in Ha.
           cbn [at_or_above] in Ha. destruct Ha as [Ha|[Ha _]]; [congruence|contradiction].
         * inversion H; subst st' v. apply Hpub.
           -- eapply cur_owner; eauto.
-          -- intros h k x Hx Hox. pose proof (i_current st2 HI2 h k x Hx) as Hc. rewrite Hox, Ecur in Hc.
+          -- intros h k x Hp Hx Hox. pose proof (i_current st2 HI2 h k x Hp Hx) as Hc. rewrite Hox, Ecur in Hc.
              inversion Hc; reflexivity.
       + (* no early reference was requested: nobody holds any version of n *)
-        assert (Hnone : forall pv h k x, In x (field_of st2 h k) -> owner x = n -> x = pv).
-        { intros pv h k x Hx Hox. pose proof (i_current st2 HI2 h k x Hx) as Hc. rewrite Hox, Ecur in Hc. discriminate. }
+        assert (Hnone : forall pv h k x, P k -> In x (field_of st2 h k) -> owner x = n -> x = pv).
+        { intros pv h k x Hp Hx Hox. pose proof (i_current st2 HI2 h k x Hp Hx) as Hc. rewrite Hox, Ecur in Hc. discriminate. }
         inversion H; subst st' v. apply Hpub; [|apply Hnone].
         destruct w as [wv|]; [exact Hown|reflexivity].
   Qed.
 End Spec.
 
-Theorem do_get_spec vt s : fix_c03 vt = true -> forall fuel, rec_spec (do_get vt s fuel).
+Theorem do_get_spec vt s : fix_c03 vt = true -> forall fuel, rec_specG (do_get vt s fuel).
 Proof.
   intros Hfix. induction fuel as [|f IH]; intros st d st' v HI H; [discriminate|].
   cbn [do_get] in H. eapply (body_spec vt Hfix s (do_get vt s f) IH); eauto.
@@ -606,7 +672,8 @@ Qed.
 
 (* ---------- lifted to a whole start ------------------------------------------------------------------ *)
 
-Definition top (st : fstate) : Prop := Inv st /\ creating (reg st) = [].
+Definition topG (st : fstate) : Prop := Inv st /\ creating (reg st) = [].
+Local Notation top := topG.
 
 Lemma top_do_get vt s fuel st n st' v :
   fix_c03 vt = true -> top st -> do_get vt s fuel st n = Ok (st', v) -> top st' /\ cur (reg st') n = Some v.
@@ -669,10 +736,10 @@ Qed.
 
 Theorem run_published vt s st :
   fix_c03 vt = true -> run vt s = Ok st ->
-  forall h k v, In v (field_of st h k) -> alookup (owner v) (L1 (reg st)) = Some v.
+  forall h k v, P k -> In v (field_of st h k) -> alookup (owner v) (L1 (reg st)) = Some v.
 Proof.
-  intros Hfix H h k v Hv. pose proof (run_core_top vt (normalise vt s) st Hfix H) as Ht.
-  apply (top_cur_L1 st _ v Ht). destruct Ht as [HI _]. apply (i_current st HI h k v Hv).
+  intros Hfix H h k v Hp Hv. pose proof (run_core_top vt (normalise vt s) st Hfix H) as Ht.
+  apply (top_cur_L1 st _ v Ht). destruct Ht as [HI _]. apply (i_current st HI h k v Hp Hv).
 Qed.
 
 (* a published component is what every later lookup returns, without any state change *)
@@ -704,3 +771,9 @@ Proof.
     exists v. assert (Ht' : top st') by (eapply get_each_top; eauto).
     apply (top_cur_L1 st' n v Ht'). apply Hk2. exact Hv1.
 Qed.
+
+End Guarded.
+
+Notation Inv := (InvG anyk).
+Notation rec_spec := (@rec_specG anyk).
+Notation top := (@topG anyk).
